@@ -629,6 +629,12 @@ impl<'a, R: ?Sized + std::io::BufRead> Tokenizer<'a, R> {
         let mut pending_here_doc_tokens = vec![];
         let mut drain_here_doc_tokens = false;
 
+        // Here-documents still pending on the enclosing line belong to the enclosing
+        // command: set them aside so the tokens of the nested construct are not mistaken
+        // for tokens following the here tag.
+        let outer_here_state = std::mem::take(&mut self.cross_state.here_state);
+        let outer_here_tags = std::mem::take(&mut self.cross_state.current_here_tags);
+
         loop {
             let cur_token = if drain_here_doc_tokens && !pending_here_doc_tokens.is_empty() {
                 if pending_here_doc_tokens.len() == 1 {
@@ -687,6 +693,9 @@ impl<'a, R: ?Sized + std::io::BufRead> Tokenizer<'a, R> {
                 _ => (),
             }
         }
+
+        self.cross_state.here_state = outer_here_state;
+        self.cross_state.current_here_tags = outer_here_tags;
 
         state.append_char(
             self.next_char()?
@@ -990,6 +999,13 @@ impl<'a, R: ?Sized + std::io::BufRead> Tokenizer<'a, R> {
                             let mut pending_here_doc_tokens = vec![];
                             let mut drain_here_doc_tokens = false;
 
+                            // See `consume_nested_construct`: here-documents pending on
+                            // the enclosing line are set aside for the nested construct.
+                            let outer_here_state =
+                                std::mem::take(&mut self.cross_state.here_state);
+                            let outer_here_tags =
+                                std::mem::take(&mut self.cross_state.current_here_tags);
+
                             loop {
                                 let cur_token = if drain_here_doc_tokens
                                     && !pending_here_doc_tokens.is_empty()
@@ -1050,6 +1066,9 @@ impl<'a, R: ?Sized + std::io::BufRead> Tokenizer<'a, R> {
                                     _ => (),
                                 }
                             }
+
+                            self.cross_state.here_state = outer_here_state;
+                            self.cross_state.current_here_tags = outer_here_tags;
                         }
                         _ => {
                             // This is either a different character, or else the end of the string.
